@@ -67,7 +67,7 @@ def main():
             "level_claimed": {"category": "exploration", "text": LEVEL_TEXT["default"] + " " + PER_CHECK.get(pid, ""),
                               "design_ref": "DESIGN.md section 6 / " + pid},
             "level_note": getattr(chk, "level_note", "Trusted: reference semantics in /verif/ref, spec builder, z3 as SAT oracle for pins, CPython, pydantic. "
-                                                    "z3 parallel mode and real timeouts are stubbed. Sampling, not exhaustive."),
+                                                    "z3 parallel mode, real timeouts and the statistics z3 reports to the library are stubbed. Sampling, not exhaustive."),
             "technique": getattr(chk, "technique", "deterministic simulation with fault injection"),
         })
     manifest = {
